@@ -131,7 +131,8 @@ def run(tier, seed, replay=None):
     trans = r1["states"] + r2["states"] + r3["states"]
 
     # ---- (i) reported layouts
-    d2s = d2 if tier == "thorough" else rnd.sample(d2, 1500)
+    rs2 = [t for t in d2 if t["k"] == "rs"]          # results with composite payloads: always all of them
+    d2s = d2 if tier == "thorough" else rnd.sample([t for t in d2 if t["k"] != "rs"], 1500) + rs2
     ltypes = d1 + fam + d2s
     n_lay, st_lc, n_mis = layouts(env, chk, drv, ltypes, rnd)
 
@@ -150,7 +151,8 @@ def run(tier, seed, replay=None):
         for k in sorted(by_kind):            # every kind of depth-1 type, evenly
             ts = by_kind[k]
             roots += rnd.sample(ts, min(len(ts), max(8, nd1 * len(ts) // len(d1))))
-        roots += rnd.sample(d2, min(nd2, len(d2)))
+        roots += rnd.sample([t for t in d2 if t["k"] != "rs"], min(nd2, len(d2)))
+        roots += rs2 if tier == "thorough" else rnd.sample(rs2, min(len(rs2), 36))
         roots += family_roots(fam, rnd, nf)
         progs = []
     for t in roots:
